@@ -383,6 +383,9 @@ def execute(plan, inst, keep_log=False):
                 raise Violation("C14.window_size_exception",
                                 "%s(%s) -> %s, documented: %s" % (method, _kwtxt(kw), _show(actual), sorted(bad)))
             return
+        if actual[0] == "exc":
+            raise Violation("C14.window_size_exception",
+                            "%s(%s) raised %s although the window sizes are valid" % (method, _kwtxt(kw), actual[1]))
         if actual[0] == "ok":
             stats["windows_checked"] += 1
             wins = [windows_model(str(p), t, kw) for t in texts]
@@ -464,6 +467,9 @@ def execute(plan, inst, keep_log=False):
                 if not h.exc or h.exc[0] not in bad or h.items:
                     raise Violation("C14.window_size_exception",
                                     "%s(%s) -> %s / %s, documented: %s" % (h.method, _kwtxt(h.kw), h.items[:3], h.exc, sorted(bad)))
+            elif h.exc:
+                raise Violation("C14.window_size_exception",
+                                "%s(%s) raised %s although the window sizes are valid" % (h.method, _kwtxt(h.kw), h.exc[0]))
             elif not h.exc:
                 stats["windows_checked"] += 1
                 if h.items not in [windows_model(str(p), t, h.kw) for t in texts]:
